@@ -105,9 +105,32 @@ def execute(scn):
     def probe(name, n=1):
         probes[name] = probes.get(name, 0) + n
 
-    design = refmodel.load(ops)
+    replaced = None
+    if scn["mode"] == "c02" and scn.get("planted") and scn["planted"][0] == "orphan_replaced":
+        # the planted op re-declares a connected signal under its own name; the model knows the
+        # design without it (valid by construction) and the verdict is the planter's
+        seen = set()
+        for i, op in enumerate(ops):
+            if op[0] == "sig":
+                if (op[1], op[2]) in seen:
+                    replaced = i
+                    break
+                seen.add((op[1], op[2]))
     try:
+        design = refmodel.load(ops if replaced is None else ops[:replaced] + ops[replaced + 1 :])
         bad, locs = refmodel.judge(design, [top])
+        if replaced is not None and not bad:
+            from sim import plant
+
+            rop = ops[replaced]
+            hier = refmodel.reachable(design, [top])
+            live = [
+                i
+                for i in plant.live_conn_ops(ops[:replaced] + ops[replaced + 1 :], design, hier)
+                if i < replaced and ops[i][0] in ("conn", "repl") and ops[i][1] == rop[1] and any(n[0] == "s" and n[1] == rop[2] for _p, n in plant._walk_paths(ops[i][4]))
+            ]
+            if live:
+                bad, locs = ("orphan_replaced", f"signal {rop[2]} replaced under its name while connected"), []
     except refmodel.ModelError as e:
         res["discard"] = f"model: {e}"
         return res
